@@ -52,11 +52,10 @@ def main():
             m['caught_by'] = (f"./check {prop} --tier quick => VIOLATION [{sig}]" if outcome == 'caught' else f"not caught by ./check {prop} --tier quick ({outcome})")
             m['what_i_ran'] = f"tools/mutation_run.sh seeded/{name}/patch.diff {prop}  (scratch worktree of /repo HEAD + the patch, scratch copy of the harness built against it, quick tier)"
             json.dump(m, open(mp, 'w'), indent=1)
-    print('| mutant | check | outcome | signature |\n|---|---|---|---|')
+    t1 = ['| mutant | check | outcome | signature |', '|---|---|---|---|']
     for k in sorted(mut):
-        print(f'| `{k}` | {mut[k][0]} | {mut[k][1]} | `{mut[k][2]}` |')
-    print()
-    print('| seeded change | what it needs to manifest | check | outcome | signature |\n|---|---|---|---|---|')
+        t1.append(f'| `{k}` | {mut[k][0]} | {mut[k][1]} | `{mut[k][2]}` |')
+    t2 = ['| seeded change | what it needs to manifest | check | outcome | signature |', '|---|---|---|---|---|']
     for k in sorted(seed):
         mp = os.path.join(HERE, 'seeded', k, 'meta.json')
         trig = ''
@@ -65,7 +64,18 @@ def main():
             trig = trig.replace('|', '/').replace('\n', ' ')
             if len(trig) > 220:
                 trig = trig[:217] + '...'
-        print(f'| `{k}` | {trig} | {seed[k][0]} | {seed[k][1]} | `{seed[k][2]}` |')
+        t2.append(f'| `{k}` | {trig} | {seed[k][0]} | {seed[k][1]} | `{seed[k][2]}` |')
+    print('\n'.join(t1))
+    print()
+    print('\n'.join(t2))
+    # rewrite the marked blocks of DESIGN.md
+    dp = os.path.join(HERE, 'DESIGN.md')
+    d = open(dp).read()
+    for tag, tab in (('MUTANTS', t1), ('SEEDED', t2)):
+        b, e = f'<!-- BEGIN:{tag} -->', f'<!-- END:{tag} -->'
+        if b in d and e in d:
+            d = d[:d.index(b) + len(b)] + '\n' + '\n'.join(tab) + '\n' + d[d.index(e):]
+    open(dp, 'w').write(d)
 
 if __name__ == '__main__':
     main()
